@@ -139,6 +139,9 @@ def run(ctx, rep):
 
     from .. import comparators
     comparators.tree_rules(P, rep, 'R-C06-9')
+    # a stripe may skip its parity update when every CHG block still matches its past hash: that hash must really be the parity's
+    from .C05 import hash_provenance_rules
+    hash_provenance_rules(P, rep, 'R-C06-10', st)
     rep.rule('R-C06-8', 'parity size: parity_chsize of every level to parity_allocated_size*block_size, failure fatal, dominates state_sync_process', 2)
     s = P.fn('state_sync')
     rep.analysed(s)
